@@ -401,6 +401,10 @@ class SimpleCfg:
         return {"name": self.name, "source": self.source(), "std": self.std, "compiler": self.compiler, "extra": self.extra, "san": self.san, "opt": self.opt}
 
 
+# the library with its default template arguments and ordinary element types (defaults_main.cpp)
+DEFAULTS_QUICK = [SimpleCfg("dflt", "defaults_main.cpp", "c++17", extra=["-DAMC_NONSTD_FEATURES"])]
+DEFAULTS_THOROUGH = [SimpleCfg("dflt", "defaults_main.cpp", "c++20", extra=["-DAMC_NONSTD_FEATURES"]),
+                     SimpleCfg("dflt", "defaults_main.cpp", "c++17", compiler="clang++-14", extra=["-DAMC_NONSTD_FEATURES"])]
 GROWTH_HUGE = [SimpleCfg("grhuge", "vec_growth_huge_main.cpp", "c++17", extra=["-DAMC_NONSTD_FEATURES"])]
 GROWTH_HUGE_THOROUGH = [SimpleCfg("grhuge", "vec_growth_huge_main.cpp", "c++11", extra=["-DAMC_NONSTD_FEATURES"]),
                         SimpleCfg("grhuge", "vec_growth_huge_main.cpp", "c++20", compiler="clang++-14", extra=["-DAMC_NONSTD_FEATURES"])]
